@@ -1,0 +1,54 @@
+//! Verification hook H1 (only built with `--cfg fuse_backend_rs_verif`).
+//!
+//! Yield points for a controlled scheduler: no-ops unless a scheduler is installed, and a
+//! scheduler only ever acts on threads it has registered itself.
+
+use std::sync::{Arc, RwLock};
+
+/// Called with the identifier of the yield point and whether the caller is waiting (for a
+/// lock that is held, or in a retry loop). Returns `false` when the calling thread is not under
+/// the scheduler's control, in which case the caller blocks or spins as usual.
+pub type SchedHook = Arc<dyn Fn(u32, bool) -> bool + Send + Sync>;
+
+static HOOK: RwLock<Option<SchedHook>> = RwLock::new(None);
+
+/// Install (or remove) the scheduler.
+pub fn verif_set_sched_hook(hook: Option<SchedHook>) {
+    *HOOK.write().unwrap() = hook;
+}
+
+pub(crate) fn point(id: u32) {
+    let hook = HOOK.read().unwrap().clone();
+    if let Some(h) = hook {
+        h(id, false);
+    }
+}
+
+pub(crate) fn waiting(id: u32) -> bool {
+    let hook = HOOK.read().unwrap().clone();
+    match hook {
+        Some(h) => h(id, true),
+        None => false,
+    }
+}
+
+/// do_lookup: before the first lock-free probe of the inode map
+pub const POINT_LOOKUP_BEFORE_PROBE: u32 = 1;
+/// do_lookup: the probe found an entry, its count is not read yet
+pub const POINT_LOOKUP_PROBE_HIT: u32 = 2;
+/// do_lookup: between reading the count and the compare-exchange
+pub const POINT_LOOKUP_BEFORE_CAS: u32 = 3;
+/// do_lookup: nothing found, before taking the write lock
+pub const POINT_LOOKUP_BEFORE_WRITE_LOCK: u32 = 4;
+/// forget: before taking the write lock
+pub const POINT_FORGET_BEFORE_WRITE_LOCK: u32 = 5;
+/// forget_one: the count reached zero, the entry is not removed yet (write lock held)
+pub const POINT_FORGET_BEFORE_REMOVE: u32 = 6;
+/// do_lookup: saw a zero count and retries (a wait)
+pub const POINT_LOOKUP_RETRY: u32 = 7;
+/// do_lookup: re-probe under the write lock found nothing, before the insert
+pub const POINT_LOOKUP_LOCKED_BEFORE_INSERT: u32 = 8;
+/// waiting for the inode map's write lock
+pub const POINT_WAIT_WRITE_LOCK: u32 = 20;
+/// waiting for the inode map's read lock
+pub const POINT_WAIT_READ_LOCK: u32 = 21;
